@@ -258,6 +258,10 @@ def run(ctx: Ctx) -> None:
         idx = canon(s.target.slice)
         if outside_stmt.targets[0].id in idx:
             ctx.ob("C07.BITS", V, s, f"outside pixels: {src(s)[:130]}", isinstance(s.op, ast.Add) and flags_in(s.value, consts) == ["PANDORA_MSK_PIXEL_OCCLUSION"] and idx == f"({row}, col_left[{outside_stmt.targets[0].id}])", expected="+= PANDORA_MSK_PIXEL_OCCLUSION at [row, col_left[outside]]", detail="a pixel whose correspondent is outside the right image is an occlusion")
+    # the statement sends *every* failed pixel through the mismatch search, also when its correspondent is outside
+    out_name = outside_stmt.targets[0].id
+    direct = [s for s in stores if out_name in canon(s.target.slice) and flags_in(s.value, consts) == ["PANDORA_MSK_PIXEL_OCCLUSION"] and "comp" not in src(s.value)]
+    ctx.ob("C07.SEARCH-DOMAIN", V, direct[0] if direct else outside_stmt, "pixels whose correspondent is outside the other image go through the mismatch search", not direct, expected="bit 9 when some d of the interval has round(dR(p+d)) == -d, bit 8 otherwise -- for outside correspondents too", detail=f"`{src(direct[0])[:100] if direct else ''}` declares them occlusions at once: a pixel with an outside correspondent for which a matching d exists is flagged 256 where the rule gives 512 (the mismatch search only runs on the inside-and-inconsistent pixels)")
     in_stores = [s for s in stores if outside_stmt.targets[0].id not in canon(s.target.slice)]
     want_idx = f"({row}, col_left[{inside_stmt.targets[0].id}][invalid])"
     for s in in_stores:
@@ -298,7 +302,7 @@ SPEC = PropSpec(
     ),
     rule_text="instances: the selections, definitions, stores and calls of disparity_checking enumerated from its syntax tree and reaching definitions; the effect summary of the function; the validation_run callback",
     run=run,
-    not_decided=["numerical equality of |dL+dR| values between runs; behaviour of np.rint on exact halves (round-half-even is numpy's documented behaviour)"],
+    not_decided=["(known finding K3) outside correspondents are declared occlusions without the mismatch search", "numerical equality of |dL+dR| values between runs; behaviour of np.rint on exact halves (round-half-even is numpy's documented behaviour)"],
     trusted=["numpy: advanced-index loads are copies, np.where on a boolean array gives the true positions", "C04 proofs P2/P4 for the additive flag stores"],
 )
 
